@@ -97,7 +97,7 @@ def raw_value_ok(line, dr):
     """value-level check of a raw-limb field op against the specification (python big ints)"""
     f = line.split(" ")
     fam, op = f[0].split(".")
-    W = 51 if fam == "fel51" else 26
+    W = 51 if fam in ("fel51", "felF51") else 26
     if not dr.startswith("ok "):
         return True
     p = pyref.P
@@ -132,7 +132,7 @@ def same(op, dr, mo, line=None):
         return coords_ok(dr, mo)
     if dr != mo:
         return False
-    if line is not None and (op.startswith("fel51.") or op.startswith("fel26.")):
+    if line is not None and op.split(".")[0] in ("fel51", "fel26", "felF51", "felF26"):
         return raw_value_ok(line, dr)
     return True
 
